@@ -31,6 +31,12 @@ func init() {
 }
 
 func runC05(c *an.Ctx) {
+	// ---- C05-R9: builder wiring of the components this property rests on
+	c.Floor("C05-R9", 5)
+	builderWiring(c, "C05-R9", map[string][]string{
+		"initDNS|dnssvc.HandlersConfig": {"GeoIP", "Cache"},
+		"initGeoIP|geoip.FileConfig":    nil,
+	})
 	// ---- R8: upstream EDNS options never reach the client; the client's ECS data survives the copy made for rewritten requests
 	c.Floor("C05-R8", 3)
 	ecsHopToHop(c, "C05-R8")
